@@ -213,6 +213,7 @@ c.modifies = lambda S_: [("all",)]
 
 c = contract(PL, "LongPoll.start", ["C19", "C14"])
 c.param("self", OBJ("LongPoll"))
+c.logged = "LongPoll.start"
 c.result = NONE
 c.host_ops_exc_base = "Exception"
 c.modifies = lambda S_: [("all",)]
@@ -252,6 +253,7 @@ c.param("self", OBJ("GRPCService"))
 c.req("secure-flag-is-bool-or-text", lambda S_: Or(Val.is_VBool(S_.old.f(S_.a.self, "_secure")),
                                                    Val.is_VStr(S_.old.f(S_.a.self, "_secure"))))
 c.result = NONE
+c.logged = "GRPCService.start"
 c.modifies = lambda S_: [("field", S_.a.self, "channel")]
 
 
